@@ -204,6 +204,8 @@ impl<'a> Tokinizer<'a> {
         }
 
         while index < self.tokens.len() {
+            #[cfg(feature = "verif")]
+            crate::verif::tick("token_cleaner");
             match self.tokens[index].deref() {
                 TokenType::Text(_) => {
                     self.tokens.remove(index);
@@ -246,6 +248,8 @@ impl<'a> Tokinizer<'a> {
         }
 
         while index < self.tokens.len() {
+            #[cfg(feature = "verif")]
+            crate::verif::tick("missing_token_adder");
             match self.tokens[index].deref() {
                 TokenType::Operator(_) => operator_required = false,
                 _ => {
